@@ -23,6 +23,7 @@ type Unit struct {
 	Watch    []watch
 	Notes    []string
 	ExternSites int
+	Sym         *Clause // two-copy unit: the symmetric clause it checks
 }
 
 type watch struct {
